@@ -270,6 +270,11 @@ func (exp *compactExpiration) rawExpireAt(dataType byte, key []byte, rawValue []
 		if when >= int64(math.MaxUint32-1) {
 			return nil, errExpOverflow
 		}
+		if when < 0 {
+			// a time before the epoch (ttl below -now) is already expired,
+			// it must not wrap around to a time in the far future (0 means no expire)
+			when = 1
+		}
 		_, err := h.decode(rawValue)
 		if err != nil {
 			return nil, err
